@@ -137,7 +137,7 @@ func addFuel(t *Term, fuel *Term, rec map[string]bool) *Term {
 }
 
 // BuildQuery renders facts ∧ ¬goal.
-func (e *Engine) BuildQuery(facts []*Term, goal *Term, solver string, lenBound bool) (string, error) {
+func (e *Engine) BuildQuery(facts []*Term, goal *Term, solver string, lenBound bool, fuel int) (string, error) {
 	q := &queryBuilder{e: e, ops: map[string]bool{}, sorts: map[string]*Sort{}, consts: map[string]*Term{}, syms: map[*SpecSym]bool{},
 		exts: map[string]*ExtSym{}, lits: map[string]*Term{}, litAr: map[string]map[int]bool{}}
 	neg := Not(goal)
@@ -428,6 +428,9 @@ func (e *Engine) BuildQuery(facts []*Term, goal *Term, solver string, lenBound b
 		}
 	}
 	fuelN := e.Fuel
+	if fuel > 0 {
+		fuelN = fuel
+	}
 	if fuelN <= 0 {
 		fuelN = 2
 	}
